@@ -76,6 +76,7 @@ type Ctx struct {
 	tick        int
 	start       time.Time
 	mark        []byte
+	beats       uint64
 	sampleEvery int64
 	spaceCtr    *int64
 	spaces      map[string]*int64
@@ -122,6 +123,9 @@ func (c *Ctx) Thorough() bool { return c.Tier == "thorough" }
 func (c *Ctx) Mine() bool {
 	i := c.idx
 	c.idx++
+	if i&1023 == 0 {
+		c.beat()
+	}
 	if int((i+c.Seed)%int64(c.N)) != c.Shard {
 		return false
 	}
@@ -182,7 +186,34 @@ func (c *Ctx) ForceExpired(why string) {
 }
 
 // T counts n calls into the code under test.
-func (c *Ctx) T(n int) { c.Transitions += int64(n) }
+func (c *Ctx) T(n int) { c.Transitions += int64(n); c.beat() }
+
+// beat publishes a progress counter in the shared mapping. The driver declares a hang only when this
+// counter stands still while the worker burns CPU time (a single case that does not end), never
+// because wall-clock time has passed.
+func (c *Ctx) beat() {
+	if c.mark == nil {
+		return
+	}
+	c.beats++
+	v := c.beats
+	m := c.mark[208:216]
+	m[0], m[1], m[2], m[3], m[4], m[5], m[6], m[7] = byte(v), byte(v>>8), byte(v>>16), byte(v>>24), byte(v>>32), byte(v>>40), byte(v>>48), byte(v>>56)
+}
+
+// ReadBeat reads the progress counter of a (live or dead) worker's mark file.
+func ReadBeat(path string) (uint64, bool) {
+	f, err := os.Open(path)
+	if err != nil {
+		return 0, false
+	}
+	defer f.Close()
+	var b [8]byte
+	if n, _ := f.ReadAt(b[:], 208); n != 8 {
+		return 0, false
+	}
+	return uint64(b[0]) | uint64(b[1])<<8 | uint64(b[2])<<16 | uint64(b[3])<<24 | uint64(b[4])<<32 | uint64(b[5])<<40 | uint64(b[6])<<48 | uint64(b[7])<<56, true
+}
 
 // NT counts a distinct non-trivial case.
 func (c *Ctx) NT() { c.Nontrivial++ }
